@@ -70,6 +70,27 @@ def run(tier):
             blocks.append((cfg, usage_actions(cfg, "help", [T("--help-short"), T("--help")])[:1]))
         if cfg["usagelong"]:
             blocks.append((cfg, usage_actions(cfg, "help", [T("--help-long"), T("-h")])[:1]))
+    # T2: definitions that are refused (key already taken, short / long pair contradicting an existing one) and caught by the
+    #     application: the usage lists the arguments the handler really has, the refused ones are unknown to --help-arg
+    nref = 0
+    for _ in range(40 if tier == "quick" else 1200):
+        stems = ["in", "input", "out", "output", "verbose", "num"]
+        keys = []
+        for _k in range(r_.randint(2, 6)):
+            l = r_.choice(stems) if r_.random() < 0.8 else ""
+            s_ = ord(r_.choice("abv")) if r_.random() < 0.6 or not l else 0
+            keys.append((s_, T(l)))
+        cfg = {"abbr": True, "endvalues": False, "hcons": [], "args": [], "lenient": True}
+        for n_, (s_, l) in enumerate(keys):
+            a = arggen.new_arg(r_.choice(["int", "flag", "str"])); a["s"], a["l"] = s_, l
+            a["card"] = {"t": "none", "a": 0, "b": 0}
+            a["hidden"] = r_.random() < 0.15
+            a["nodesc"] = False; a["repl"] = []; a["printdef"] = "dflt"
+            cfg["args"].append(a)
+        cfg.update({"usagehidden": r_.random() < 0.3, "usagedepr": False, "usageshort": False, "usagelong": False, "help": False})
+        blocks.append((cfg, [{"n": "Define", "mode": "handler"}] + usage_actions(cfg)))
+        nref += 1
+    c.notes.append("T2: %d handlers with refused definitions" % nref)
     script2 = os.path.join(c.wd, "random.ndjson")
     write_cases(script2, blocks)
     run_script(c, exe, script2, "T")
